@@ -29,6 +29,9 @@ func checkC17(ctx *Ctx, r *Report) {
 	c17Unselected(ctx, r)
 	c17Paths(ctx, r)
 	c17WriteSets(ctx, r, eng)
+	c17MovedPairs(ctx, r)
+	c17AssignmentsConserved(ctx, r)
+	c17ExactLookups(ctx, r)
 	// the copies veneers rely on
 	for _, m := range findCopyMethods(ctx) {
 		if m.pkg.PkgPath == astPkgPath {
@@ -555,4 +558,292 @@ func c17WriteSets(ctx *Ctx, r *Report, eng *effectsEngine) {
 			r.Undecided("anchor lost: veneer rule %s", k)
 		}
 	}
+}
+
+// ---------------------------------------------------------------------------
+// (6) what a rule moves from an option: arguments and assignments go together; (7) an action that rebuilds the
+// assignments of the option it replaces keeps the other ones; (8) references are resolved by exact name.
+
+// moveShape describes which part of X.Args / X.Assignments an expression denotes: "all", "[k]", "[k:]".
+func moveShape(info *types.Info, e ast.Expr, field string, defs map[types.Object]ast.Expr, depth int) (root types.Object, shape string) {
+	e = ast.Unparen(e)
+	if depth > 4 {
+		return nil, ""
+	}
+	switch x := e.(type) {
+	case *ast.Ident:
+		if d, ok := defs[objOf(info, x)]; ok {
+			return moveShape(info, d, field, defs, depth+1)
+		}
+	case *ast.CallExpr:
+		// X.Args[0].DeepCopy()
+		if sel, ok := x.Fun.(*ast.SelectorExpr); ok && sel.Sel.Name == "DeepCopy" && len(x.Args) == 0 {
+			return moveShape(info, sel.X, field, defs, depth+1)
+		}
+	case *ast.IndexExpr:
+		if r, s := moveShape(info, x.X, field, defs, depth+1); r != nil && s == "all" {
+			if tv, ok := info.Types[x.Index]; ok && tv.Value != nil {
+				return r, "[" + tv.Value.ExactString() + "]"
+			}
+			return r, "[i]"
+		}
+	case *ast.SliceExpr:
+		if r, s := moveShape(info, x.X, field, defs, depth+1); r != nil && s == "all" {
+			lo := "0"
+			if x.Low != nil {
+				lo = exprString(x.Low)
+			}
+			if x.High != nil {
+				return r, "[" + lo + ":" + exprString(x.High) + "]"
+			}
+			return r, "[" + lo + ":]"
+		}
+	case *ast.SelectorExpr:
+		if x.Sel.Name == field {
+			if t := namedOf(info.TypeOf(x.X)); t != nil && t.Obj().Name() == "Option" {
+				if id, ok := ast.Unparen(x.X).(*ast.Ident); ok {
+					return objOf(info, id), "all"
+				}
+			}
+		}
+	}
+	return nil, ""
+}
+
+func c17MovedPairs(ctx *Ctx, r *Report) {
+	n := 0
+	for _, rel := range veneerPkgs {
+		p := ctx.Pkg(rel)
+		if p == nil {
+			continue
+		}
+		info := p.TypesInfo
+		for _, file := range p.Syntax {
+			for _, d := range file.Decls {
+				fd, ok := d.(*ast.FuncDecl)
+				if !ok || fd.Body == nil {
+					continue
+				}
+				fobj, _ := info.Defs[fd.Name].(*types.Func)
+				defs := map[types.Object]ast.Expr{}
+				ast.Inspect(fd.Body, func(m ast.Node) bool {
+					if as, ok := m.(*ast.AssignStmt); ok && as.Tok == token.DEFINE && len(as.Lhs) == len(as.Rhs) {
+						for i, l := range as.Lhs {
+							if id, ok := l.(*ast.Ident); ok {
+								defs[info.Defs[id]] = as.Rhs[i]
+							}
+						}
+					}
+					return true
+				})
+				type mv struct {
+					shape string
+					pos   token.Pos
+				}
+				moved := map[types.Object]map[string][]mv{}
+				ast.Inspect(fd.Body, func(m ast.Node) bool {
+					c, ok := m.(*ast.CallExpr)
+					if !ok || len(c.Args) < 2 {
+						return true
+					}
+					if id, ok := c.Fun.(*ast.Ident); !ok || id.Name != "append" {
+						return true
+					}
+					tsel, ok := ast.Unparen(c.Args[0]).(*ast.SelectorExpr)
+					if !ok || (tsel.Sel.Name != "Args" && tsel.Sel.Name != "Assignments") {
+						return true
+					}
+					field := tsel.Sel.Name
+					for _, a := range c.Args[1:] {
+						root, shape := moveShape(info, a, field, defs, 0)
+						if root == nil {
+							continue
+						}
+						// appending to the very slice it comes from is not a move
+						if r2, _ := moveShape(info, tsel, field, defs, 0); r2 == root {
+							continue
+						}
+						if moved[root] == nil {
+							moved[root] = map[string][]mv{}
+						}
+						moved[root][field] = append(moved[root][field], mv{shape, c.Pos()})
+					}
+					return true
+				})
+				var roots []types.Object
+				for o := range moved {
+					roots = append(roots, o)
+				}
+				sort.Slice(roots, func(i, j int) bool { return roots[i].Pos() < roots[j].Pos() })
+				for _, o := range roots {
+					as, gs := moved[o]["Assignments"], moved[o]["Args"]
+					if len(as) == 0 || len(gs) == 0 {
+						continue
+					}
+					n++
+					set := func(l []mv) string {
+						seen := map[string]bool{}
+						var out []string
+						for _, x := range l {
+							if !seen[x.shape] {
+								seen[x.shape] = true
+								out = append(out, x.shape)
+							}
+						}
+						sort.Strings(out)
+						return strings.Join(out, ",")
+					}
+					r.Check(set(as) == set(gs), "effects/args-with-assignments", fmt.Sprintf("%s moves %s.Args and %s.Assignments", ctx.FuncName(fobj), o.Name(), o.Name()), as[0].pos,
+						"the same part of both lists is moved ("+set(as)+")",
+						fmt.Sprintf("%s takes Args%s but Assignments%s of option `%s`: an assignment is moved without the argument it reads (or an argument without its assignment) — the target declares an assignment whose argument it does not have", ctx.FuncName(fobj), set(gs), set(as), o.Name()))
+				}
+			}
+		}
+	}
+	r.Count("functions moving arguments and assignments of an option together", n)
+	r.Floor("functions moving arguments and assignments of an option together", 2)
+}
+
+// c17AssignmentsConserved: an option action that answers with one option built as a copy of the one it was given and
+// gives that copy a fresh Assignments list (rebuilt from the first assignment) must put the remaining assignments of
+// the original back: the option "still assigns the same targets" — add_assignment may have given it several.
+func c17AssignmentsConserved(ctx *Ctx, r *Report) {
+	n := 0
+	forEachVeneerClosure(ctx, func(p *packages.Package, fd *ast.FuncDecl, fobj *types.Func, lit *ast.FuncLit) {
+		if !strings.HasSuffix(p.PkgPath, "/veneers/option") {
+			return
+		}
+		info := p.TypesInfo
+		// the option parameter
+		var param types.Object
+		for _, f := range lit.Type.Params.List {
+			for _, nm := range f.Names {
+				if t := namedOf(info.TypeOf(nm)); t != nil && t.Obj().Name() == "Option" {
+					param = info.Defs[nm]
+				}
+			}
+		}
+		if param == nil {
+			return
+		}
+		defs := map[types.Object]ast.Expr{}
+		copies := map[types.Object]bool{}
+		ast.Inspect(lit.Body, func(m ast.Node) bool {
+			if as, ok := m.(*ast.AssignStmt); ok && as.Tok == token.DEFINE && len(as.Lhs) == len(as.Rhs) {
+				for i, l := range as.Lhs {
+					id, ok := l.(*ast.Ident)
+					if !ok {
+						continue
+					}
+					defs[info.Defs[id]] = as.Rhs[i]
+					rhs := ast.Unparen(as.Rhs[i])
+					if c, ok := rhs.(*ast.CallExpr); ok {
+						if sel, ok := c.Fun.(*ast.SelectorExpr); ok && sel.Sel.Name == "DeepCopy" {
+							rhs = ast.Unparen(sel.X)
+						}
+					}
+					if rid, ok := rhs.(*ast.Ident); ok && objOf(info, rid) == param {
+						copies[info.Defs[id]] = true
+					}
+				}
+			}
+			return true
+		})
+		for cp := range copies {
+			var rebuilt *ast.AssignStmt
+			ast.Inspect(lit.Body, func(m ast.Node) bool {
+				as, ok := m.(*ast.AssignStmt)
+				if !ok || as.Tok != token.ASSIGN || len(as.Lhs) != 1 {
+					return true
+				}
+				sel, ok := ast.Unparen(as.Lhs[0]).(*ast.SelectorExpr)
+				if !ok || sel.Sel.Name != "Assignments" {
+					return true
+				}
+				if id, ok := ast.Unparen(sel.X).(*ast.Ident); !ok || objOf(info, id) != cp {
+					return true
+				}
+				// `cp.Assignments = append(cp.Assignments, …)` extends, it does not rebuild
+				if c, ok := ast.Unparen(as.Rhs[0]).(*ast.CallExpr); ok {
+					if f, ok := c.Fun.(*ast.Ident); ok && f.Name == "append" {
+						return true
+					}
+				}
+				if rebuilt == nil {
+					rebuilt = as
+				}
+				return true
+			})
+			if rebuilt == nil {
+				continue
+			}
+			n++
+			// the rest is put back: append(cp.Assignments, <option.Assignments>[1:]...) or a loop over option.Assignments appending
+			restored := false
+			ast.Inspect(lit.Body, func(m ast.Node) bool {
+				c, ok := m.(*ast.CallExpr)
+				if !ok || len(c.Args) < 2 {
+					return true
+				}
+				if f, ok := c.Fun.(*ast.Ident); !ok || f.Name != "append" {
+					return true
+				}
+				tsel, ok := ast.Unparen(c.Args[0]).(*ast.SelectorExpr)
+				if !ok || tsel.Sel.Name != "Assignments" {
+					return true
+				}
+				if id, ok := ast.Unparen(tsel.X).(*ast.Ident); !ok || objOf(info, id) != cp {
+					return true
+				}
+				for _, a := range c.Args[1:] {
+					root, shape := moveShape(info, a, "Assignments", defs, 0)
+					if root == param && (shape == "[1:]" || shape == "all") && c.Ellipsis.IsValid() {
+						restored = true
+					}
+				}
+				return true
+			})
+			r.Check(restored, "effects/assignments-conserved", fmt.Sprintf("%s rebuilds %s.Assignments", ctx.FuncName(fobj), cp.Name()), rebuilt.Pos(), "the assignments after the first one are appended back from the original option",
+				fmt.Sprintf("%s gives its copy of the option a fresh Assignments list and never appends the original's remaining assignments (`append(%s.Assignments, <original>.Assignments[1:]...)`): an option that add_assignment gave a second assignment loses it — it no longer assigns the same targets", ctx.FuncName(fobj), cp.Name()))
+		}
+	})
+	r.Count("option actions rebuilding the assignments of a copied option", n)
+	r.Floor("option actions rebuilding the assignments of a copied option", 2)
+}
+
+// c17ExactLookups: objects and builders are stored under their exact names (two names differing by case are two objects);
+// the functions that resolve a reference or a builder name to one element must compare exactly — selectors, which take
+// names from configuration files, are documented as case-insensitive and are not lookups.
+func c17ExactLookups(ctx *Ctx, r *Report) {
+	n := 0
+	ctx.AllFuncDecls(func(p *packages.Package, fd *ast.FuncDecl, obj *types.Func) {
+		if fd.Body == nil || fd.Recv == nil {
+			return
+		}
+		rel := ctx.RelPkg(p.PkgPath)
+		if rel != "internal/ast" && rel != "internal/languages" {
+			return
+		}
+		nm := fd.Name.Name
+		if !(strings.HasPrefix(nm, "Locate") || strings.HasPrefix(nm, "Resolve")) {
+			return
+		}
+		n++
+		bad := ""
+		ast.Inspect(fd.Body, func(m ast.Node) bool {
+			if c, ok := m.(*ast.CallExpr); ok {
+				if fn := callee(p.TypesInfo, c); fn != nil {
+					switch fn.FullName() {
+					case "strings.EqualFold", "strings.ToLower", "strings.ToUpper", modulePath + "/internal/tools.StringInListEqualFold":
+						bad = fn.FullName()
+					}
+				}
+			}
+			return true
+		})
+		r.Check(bad == "", "lookup/exact-name", ctx.FuncName(obj), fd.Pos(), "names are compared exactly",
+			fmt.Sprintf("%s resolves a name through %s: with two objects / builders whose names differ only by case, references to the second one resolve to the first — paths are typed after the wrong struct and the wrong builder's options are merged", ctx.FuncName(obj), bad))
+	})
+	r.Count("reference / builder lookups", n)
+	r.Floor("reference / builder lookups", 10)
 }
